@@ -451,6 +451,9 @@ struct Filename {
     full: OsString,
     // the "display" name, i.e. the name that appears in an /include directive or an error message
     display: String,
+    // for a file that was included by an included file: the name in the /include directive of the
+    // top-level file through which this file was (indirectly) included
+    include_root: Option<String>,
 }
 
 impl Filename {
@@ -458,7 +461,13 @@ impl Filename {
         Self {
             full,
             display: display.to_string(),
+            include_root: None,
         }
+    }
+
+    // the name of the /include directive in the top-level file which pulls in the content of this file
+    pub(crate) fn include_name(&self) -> &str {
+        self.include_root.as_deref().unwrap_or(&self.display)
     }
 }
 
@@ -467,6 +476,7 @@ impl From<&str> for Filename {
         Self {
             full: OsString::from(value),
             display: String::from(value),
+            include_root: None,
         }
     }
 }
@@ -476,6 +486,7 @@ impl From<&Path> for Filename {
         Self {
             display: value.to_string_lossy().to_string(),
             full: OsString::from(value),
+            include_root: None,
         }
     }
 }
@@ -485,6 +496,7 @@ impl From<OsString> for Filename {
         Self {
             display: value.to_string_lossy().to_string(),
             full: value,
+            include_root: None,
         }
     }
 }
